@@ -1,10 +1,15 @@
 (* Wire for C12: one scenario in, the model's effect list and result out.
-   case 0: (0 port platform board upload pio (f_readmain f_parse f_mkdtemp f_mkdir f_writemain f_writeini f_build f_upload))
-           -> (0 ((tag val...) ...) result)     result = (0 val) returned | (1 kind) raised | (2) fell off the end
+   case 0: (0 port platform board upload pio (f_readmain f_parse f_mkdtemp f_mkdir f_writemain f_writeini f_build f_upload
+                                                f_buildexec f_uploadexec) how (lib ...))
+           -> (0 ((tag val...) ...) result (ini-text ...))
+              result = (0 val) returned | (1 kind) raised | (2) fell off the end
+              how = 0 not found | 1 no execute permission | 2 no executable format | 3 PATH component not a directory
+                    | 4 exits non-zero (consulted only when pio = false)
+              ini-text: the platformio.ini text of every WriteIni effect, in order
    case 1: (1) -> (0 shape_ok number_of_steps)
    The statement list interpreted is the one the translator read from the current source. *)
 From Coq Require Import ZArith List Bool.
-From RV Require Import Base.Wire Base.Text Gen.Registry Tool.Registry Tool.Target Gen.TargetShape.
+From RV Require Import Base.Wire Base.Text Gen.Registry Tool.Registry Tool.Ini Tool.Target Tool.TargetIni Gen.TargetShape.
 Import ListNotations.
 Open Scope Z_scope.
 
@@ -34,14 +39,33 @@ Definition wresult (r : result) : wv :=
   | FellOff => WL [WI 2]
   end.
 
-(* the texts the argument values denote; every other value is not a registry name *)
-Definition resolve (port pl bd : text) (v : val) : text :=
-  match v with VPort => port | VPlatform => pl | VBoard => bd | _ => [] end.
+Definition how_of (z : Z) : pfail :=
+  if z =? 1 then PPerm else if z =? 2 then PFormat else if z =? 3 then PNotDir
+  else if z =? 4 then PExit else PNotFound.
+
+Fixpoint un_texts (l : list wv) : option (list text) :=
+  match l with
+  | [] => Some []
+  | v :: r => match un_text v, un_texts r with
+              | Some t, Some ts => Some (t :: ts)
+              | _, _ => None
+              end
+  end.
+
+Fixpoint ini_texts (a : cargs) (evs : list event) : list wv :=
+  match evs with
+  | [] => []
+  | ev :: r => match ini_text a ev with
+               | Some t => wtext t :: ini_texts a r
+               | None => ini_texts a r
+               end
+  end.
 
 Definition mk_fault (l : list bool) (f : fpoint) : bool :=
   let n := match f with
            | FReadMain => 0 | FParse => 1 | FMkdtemp => 2 | FMkdir => 3
            | FWriteMain => 4 | FWriteIni => 5 | FBuild => 6 | FUpload => 7
+           | FBuildExec => 8 | FUploadExec => 9
            end%nat in
   nth n l false.
 
@@ -56,15 +80,14 @@ Fixpoint un_bools (l : list wv) : option (list bool) :=
 
 Definition run (v : wv) : wv :=
   match v with
-  | WL [WI 0; po; p; b; u; pi; WL fl] =>
-      match un_text po, un_text p, un_text b, un_bool u, un_bool pi, un_bools fl with
-      | Some port, Some pl, Some bd, Some up, Some pio_ok, Some faults =>
-          let e := {| validf := fun a c => match validate (resolve port pl bd a) (resolve port pl bd c) with
-                                           | None => true | Some _ => false end;
-                      upload := up; pio := pio_ok; fault := mk_fault faults |} in
+  | WL [WI 0; po; p; b; u; pi; WL fl; WI how; WL ls] =>
+      match un_text po, un_text p, un_text b, un_bool u, un_bool pi, un_bools fl, un_texts ls with
+      | Some port, Some pl, Some bd, Some up, Some pio_ok, Some faults, Some libs =>
+          let a := {| c_port := port; c_platform := pl; c_board := bd; c_libs := libs |} in
+          let e := env_for a up pio_ok (how_of how) (mk_fault faults) in
           let '(evs, res) := target_run e steps in
-          wok [WL (map wevent evs); wresult res]
-      | _, _, _, _, _, _ => wbad
+          wok [WL (map wevent evs); wresult res; WL (ini_texts a evs)]
+      | _, _, _, _, _, _, _ => wbad
       end
   | WL [WI 1] => wok [wbool (shape_ok steps); WI (Z.of_nat (length steps))]
   | _ => wbad
